@@ -143,7 +143,7 @@ def run(ctx, ck) -> None:
             if ok is True:
                 ck.ok('G2', cls.node, f'orthogonal derived: {why}', instance=f'{cls.name}:orthogonal')
             elif ok is False:
-                ck.bad('G2', cls.node, f'{cls.name} is declared orthogonal but {why}', instance=f'{cls.name}:orthogonal')
+                ck.bad('G2', cls.node, f'{cls.name} is declared orthogonal but {why}', instance=f'{cls.name}:orthogonal', semantic=('matri' in why or 'M^T M' in why))  # a refutation by derived exact matrices is not a written-form rule
             else:
                 ck.incomplete('G2', cls.node, f'{cls.name} is declared orthogonal and no derivation is available: {why}', instance=f'{cls.name}:orthogonal')
         if table.decorated_with(cls, 'square'):
